@@ -245,6 +245,9 @@ func (e *Engine) contractFor(fn *ssa.Function) *Contract {
 }
 
 func (e *Engine) inRepo(fn *ssa.Function) bool {
+	if fn != nil && fn.Pkg == nil && fn.Origin() != nil {
+		fn = fn.Origin() // instantiated generic: go/ssa leaves Pkg nil on instances
+	}
 	return fn != nil && fn.Pkg != nil && strings.HasPrefix(fn.Pkg.Pkg.Path(), repoModule)
 }
 
